@@ -754,7 +754,8 @@ def mutations_obligation(prop):
             for node, kind, text in found:
                 ctx.finding(q, {"slice-reordered": "part of an array reordered in place", "overwrite-input": "input of a reduction overwritten",
                                 "iterator-advanced": "iterator advanced before its consumer", "loop-rebinds": "loop target overwrites a live variable",
-                                "parameter-truncated": "parameter cut down to a fixed number of elements"}[kind],
+                                "parameter-truncated": "parameter cut down to a fixed number of elements", "swap-through-views": "parts of an array exchanged through views",
+                                "alias-updated": "array updated through an alias"}[kind],
                             text, node, m)
             undec += [(q, node, text) for node, kind, text in und if q not in REORDER_BASELINE]
         # a repository helper that updates one of its parameters in place, called with a local of the caller that the caller goes on using: the
@@ -790,6 +791,13 @@ def mutations_obligation(prop):
                     inside = {id(x) for x in ast.walk(c)}
                     later = [ln for nm, ln, nd in loads if nm == a.id and ln > c.lineno and id(nd) not in inside]
                     if later:
+                        # output-buffer convention: the caller allocated the array right there for the helper to fill (np.empty / zeros ...) and has not read
+                        # it before the call -- the update is the helper's purpose and the interpretation follows it (in-place updates reach the caller)
+                        allocs = [s_ for s_ in nodes if isinstance(s_, ast.Assign) and len(s_.targets) == 1 and isinstance(s_.targets[0], ast.Name) and s_.targets[0].id == a.id
+                                  and s_.lineno < c.lineno and isinstance(s_.value, ast.Call)
+                                  and (ctx.prog.resolve(m, s_.value.func) or "") in ("numpy.empty", "numpy.zeros", "numpy.ones", "numpy.empty_like", "numpy.zeros_like", "numpy.full")]
+                        if allocs and not [1 for nm, ln, nd in loads if nm == a.id and allocs[-1].lineno < ln < c.lineno]:
+                            continue
                         n_sites += 1
                         import fnmatch as _fn
                         if not any(_fn.fnmatchcase(q, b0) and _fn.fnmatchcase(r[0], b1) and p_ == b2 for b0, b1, b2 in HELPER_UPDATES_BASELINE):
@@ -804,6 +812,13 @@ def mutations_obligation(prop):
                 if isinstance(c, ast.Call) and isinstance(c.func, ast.Attribute) and c.func.attr in ("sort_values", "sort_index") and any(
                         k.arg == "inplace" and isinstance(k.value, ast.Constant) and k.value.value is True for k in c.keywords):
                     n_drop += 1
+                    recv_ = c.func.value
+                    fresh_local = isinstance(recv_, ast.Name) and any(
+                        isinstance(a_, ast.Assign) and len(a_.targets) == 1 and isinstance(a_.targets[0], ast.Name) and a_.targets[0].id == recv_.id and a_.lineno < c.lineno
+                        and isinstance(a_.value, ast.Call) and isinstance(a_.value.func, ast.Attribute) and a_.value.func.attr in ("copy", "concat", "DataFrame", "merge", "reset_index", "deepcopy")
+                        for a_ in dataflow._own_nodes(fn)) and recv_.id not in {p_.arg for p_ in fn.args.posonlyargs + fn.args.args + fn.args.kwonlyargs}
+                    if fresh_local:
+                        continue  # a table this function has just built / copied and that nobody else holds
                     if q not in INPLACE_SORT_BASELINE:
                         undec.append((q, c, f"`{norm_text(c)[:80]}` sorts a table in place in {q}: every holder of that table (the object, the caller) sees the new "
                                       "row order"))
